@@ -3,6 +3,7 @@ package main
 
 import (
 	"fmt"
+	"github.com/moorara/algo/generic"
 	"strconv"
 	"strings"
 
@@ -256,6 +257,122 @@ func gotTyped(g *east.Grammar) string {
 	return b.String()
 }
 
+// accessors compares what the typed tree says about itself through its methods (Children, Pos, Traverse) with
+// its fields: the children of every interior node are exactly its operands / declarations / handles in order, Pos()
+// is the recorded position, and a VLR traversal visits the nodes in pre-order.
+func accessors(g *east.Grammar) string {
+	var pre []east.Node
+	var walk func(n east.Node) string
+	walk = func(n east.Node) string {
+		pre = append(pre, n)
+		var kids []east.Node
+		var pos *lexer.Position
+		hasPos := true
+		switch v := n.(type) {
+		case *east.Grammar:
+			for _, d := range v.Decls {
+				kids = append(kids, d)
+			}
+			pos = v.Position
+		case *east.StringTokenDecl:
+			pos = v.Position
+		case *east.RegexTokenDecl:
+			pos = v.Position
+		case *east.PrecedenceDecl:
+			for _, h := range v.Handles {
+				kids = append(kids, h)
+			}
+			pos = v.Position
+		case *east.TerminalHandle:
+			pos = v.Position
+		case *east.ProductionHandle:
+			kids, pos = []east.Node{v.RHS}, v.Position
+		case *east.RuleDecl:
+			kids, pos = []east.Node{v.RHS}, v.Position
+		case *east.ConcatRHS:
+			for _, o := range v.Ops {
+				kids = append(kids, o)
+			}
+			hasPos = false
+		case *east.AltRHS:
+			for _, o := range v.Ops {
+				kids = append(kids, o)
+			}
+			hasPos = false
+		case *east.OptRHS:
+			kids, pos = []east.Node{v.Op}, v.Position
+		case *east.StarRHS:
+			kids, pos = []east.Node{v.Op}, v.Position
+		case *east.PlusRHS:
+			kids, pos = []east.Node{v.Op}, v.Position
+		case *east.NonTerminalRHS:
+			pos = v.Position
+		case *east.TerminalRHS:
+			pos = v.Position
+		default:
+			hasPos = false
+		}
+		if hasPos && n.Pos() != pos {
+			return fmt.Sprintf("%s: Pos() is %s, the recorded position is %s", n, ps(n.Pos()), ps(pos))
+		}
+		// a concatenation / alternation has no position of its own: Pos() is "the leftmost position in the input that
+		// the node represents", i.e. where its first operand starts (not judged when that operand is an empty alternative)
+		if len(kids) > 0 && !hasPos && kids[0] != nil {
+			if first := kids[0].Pos(); first != nil {
+				if got := n.Pos(); got == nil || *got != *first {
+					return fmt.Sprintf("%s: Pos() is %s, its first operand starts at %s", n, ps(got), ps(first))
+				}
+			}
+		}
+		if in, ok := n.(east.InternalNode); ok {
+			got := in.Children()
+			if len(got) != len(kids) {
+				return fmt.Sprintf("%s: Children() has %d entries, the node has %d", n, len(got), len(kids))
+			}
+			for i := range kids {
+				if got[i] != kids[i] {
+					return fmt.Sprintf("%s: child %d is %v, the node's operand %d is %v", n, i, got[i], i, kids[i])
+				}
+			}
+		} else if len(kids) > 0 {
+			return fmt.Sprintf("%s has operands but is not an interior node", n)
+		}
+		for _, k := range kids {
+			if k == nil {
+				continue
+			}
+			if d := walk(k); d != "" {
+				return d
+			}
+		}
+		return ""
+	}
+	if d := walk(g); d != "" {
+		return d
+	}
+	var visited []east.Node
+	east.Traverse(g, generic.VLR, func(n east.Node) bool {
+		visited = append(visited, n)
+		return true
+	})
+	// nil operands (a rule without body) are not visited by either walk
+	var want []east.Node
+	for _, n := range pre {
+		if n != nil {
+			want = append(want, n)
+		}
+	}
+	if len(visited) != len(want) {
+		return fmt.Sprintf("a VLR traversal visits %d nodes, the tree has %d", len(visited), len(want))
+	}
+	for i := range want {
+		if visited[i] != want[i] {
+			return fmt.Sprintf("a VLR traversal visits %v as node %d, pre-order has %v", visited[i], i, want[i])
+		}
+	}
+	return ""
+}
+
 // ---- (c) printing a typed tree back to EBNF ------------------------------------------------------
 
 func printTerm(t string) string {
@@ -409,6 +526,9 @@ func checkText(r *ev.Run, text, family string) {
 		r.Report("", "ast.Parse returned (nil, nil)\n"+text, in)
 		return
 	}
+	if d := accessors(g); d != "" {
+		r.Report("", fmt.Sprintf("the typed tree's accessor methods disagree with its fields: %s\n%s", d, text), in)
+	}
 	want, got := wantTyped(root), gotTyped(g)
 	if want != got {
 		r.Report("", fmt.Sprintf("typed tree differs from what was written:\nexpected:\n%sgot:\n%s--- source ---\n%s", want, got, text), in)
@@ -473,7 +593,7 @@ func main() {
 		r.Finish()
 	}
 	if r.Fork(16) {
-		r.Set("rule", "the specification space shared with C18 (every right-hand side up to the node bound, every declaration sequence of every kind up to the length bound with semicolon variants, nestings to depth 4, specifications without declarations), canonical layout and a vertical layout; plus, for 9 kinds of single difference (rule body, handle body, token definition, associativity, terminal handles, names), every pair of specifications that differ only there must not compare Equal; non-trivial = any specification; distinct by text")
+		r.Set("rule", "the specification space shared with C18 (every right-hand side up to the node bound, every declaration sequence of every kind up to the length bound with semicolon variants, nestings to depth 4, specifications without declarations), canonical layout, a vertical layout and a staircase layout (one token per line with shrinking indentation); plus, for 9 kinds of single difference (rule body, handle body, token definition, associativity, terminal handles, names), every pair of specifications that differ only there must not compare Equal; non-trivial = any specification; distinct by text")
 		r.Set("evaluations", r.Get("specs"))
 		r.Finish()
 	}
@@ -498,6 +618,17 @@ func main() {
 				return "\n  "
 			}, "")
 			checkText(r, alt, family+"_vertical")
+		}
+		if n%5 == 2 {
+			// one token per line with shrinking indentation: later tokens start in smaller columns than earlier ones
+			toks := sp.Tokens()
+			alt, _ := ebnfref.Render(toks, func(i int) string {
+				if i == 0 {
+					return ""
+				}
+				return "\n" + strings.Repeat(" ", (len(toks)-i)%13)
+			}, "\n")
+			checkText(r, alt, family+"_staircase")
 		}
 		if n%1013 == 0 {
 			r.Sample(map[string]any{"family": family, "text": text})
@@ -529,7 +660,7 @@ func main() {
 	}
 	holes := []struct {
 		name, before, after string
-		fillers               []string
+		fillers             []string
 	}{
 		{"rule-body", "grammar g ;\nTK = \"t\" ;\na = \"p\" ;\nb = \"q\" ;\nstart = ", " ;\n", bodies},
 		{"handle-body", "grammar g ;\nTK = \"t\" ;\na = \"p\" ;\nb = \"q\" ;\n@left < start = ", " > \"+\" ;\nstart = a ;\n", bodies},
